@@ -102,6 +102,9 @@ func runShardLoop(ctx *core.Ctx, meta *props.Meta, runs int) {
 			continue
 		}
 		t0 := time.Now()
+		if slow > 0 && os.Getenv("VERIF_ANNOUNCE_RUNS") != "" {
+			fmt.Fprintf(os.Stderr, "dst: run %d starts\n", i)
+		}
 		r := ctx.BeginRun(i)
 		meta.Run(ctx, r)
 		ctx.EndRun()
